@@ -109,6 +109,45 @@ for _m in ("single_stage_pipeline", "five_stage_pipeline"):
 step_return_unit()
 
 
+def not_started_unit(mode):
+    @unit("C13/%s/not-started-means-untouched" % mode.split("_")[0], expect_reach=("stepped", "faulted") if mode == "single_stage_pipeline" else ("stepped",))
+    def u():
+        """whatever a step() call does -- complete, fault, or nothing because the simulation is done -- afterwards
+        `has_started` is False only if the state is exactly what it was (so that 'has not started' really licenses
+        the reload clause)"""
+        st, regs0 = havoc_state(mode)
+        load(st, [LW(5, R("a"), sym_int("imm", -2048, 2047)), ADDI(6, 6, 1)])
+        if sym_bool("nothing_at_pc"):
+            st.program_counter = 400
+        sim = RiscvSimulation(state=st)
+        check("fresh_simulation_has_not_started", sim.has_started is False)
+        before = snapshot(sim, ignore=TIMER)
+        try:
+            sim.step()
+            reach("stepped")
+        except InstructionExecutionException as e:
+            reach("faulted")
+        if sim.has_started is False:
+            check_same("not_started_implies_state_untouched", before, snapshot(sim, ignore=TIMER))
+        else:
+            check("started", sim.has_started is True)
+
+
+not_started_unit("single_stage_pipeline")
+not_started_unit("five_stage_pipeline")
+
+
+@unit("C13/toy/not-started-means-untouched")
+def toy_not_started():
+    from contracts.toy import boundary_state
+    sim, f = boundary_state()
+    sim.has_started = False
+    before = snapshot(sim, ignore=TIMER)
+    sim.single_step()
+    if sim.has_started is False:
+        check_same("not_started_implies_state_untouched", before, snapshot(sim, ignore=TIMER))
+
+
 @unit("C13/empty-program-is-done-immediately")
 def empty_done():
     for mode in ("single_stage_pipeline", "five_stage_pipeline"):
